@@ -43,7 +43,10 @@ Definition new_uid_list (p : N) (us : list N) (tbl : list (N * N)) : list (N * N
 
 Inductive zop :=
 | ZY (o : yop)
-| ZFire (p : N) (us : list N).
+| ZFire (p : N) (us : list N)
+| ZAddDup (p : N)        (* Device::AddPort with a NEW port object whose PortId() and direction equal those
+                            of the device's existing port p: ignored (warning), the caller keeps the object *)
+| ZDevStart (d : N).     (* Device::Start: does not touch ports (a second Start is a no-op too) *)
 
 Definition zstep (zc : zcfg) (z : zstate) (o : zop) : zoutcome :=
   let s := zbase z in
@@ -63,6 +66,15 @@ Definition zstep (zc : zcfg) (z : zstate) (o : zop) : zoutcome :=
                (fun a => filter (fun e => opt_eqb (s_puniv s' (snd e)) (Some a)) (z_uids z a)))
           r
     end
+  | ZAddDup p =>
+    match port_of (xc_cfg (zc_xc zc)) s p with
+    | Some pc => match dev_cfg (xc_cfg (zc_xc zc)) (pc_dev pc) with
+                 | Some _ => ZOk z (RBool true)      (* GenericAddPort returns true; nothing changes *)
+                 | None => ZOk z RUnit end
+    | None => ZOk z RUnit
+    end
+  | ZDevStart d =>
+    match dev_cfg (xc_cfg (zc_xc zc)) d with Some _ => ZOk z (RBool true) | None => ZOk z RUnit end
   | ZFire p us =>
     if z_pend z p =? 0 then ZOk z RUnit
     else
